@@ -19,6 +19,30 @@ CLAIMS = {
         "spence(z) = Li2(1-z); eko.constants read from installed source. Kernel variable assumed in (0,1).",
         "DESIGN.md section 3, C03",
     ),
+    "C16": (
+        "partial evaluation of the repository's source over the configuration lattice; must-pass-through; probe folding",
+        "Decides: over the documented configuration lattice (kind x heavyness x process x scheme/NfFF x PTO, plus scale-variation, "
+        "FONLL-parts, TMC and cross-section sub-lattices; ~5.6k cells quick, more thorough) partial evaluation of Runner construction and "
+        "the per-point calculation ends in an operator or in an explicit raise ValueError|NotImplementedError(message), never in a "
+        "KeyError/AttributeError/IndexError/ModuleNotFoundError/TypeError; kinematic guards reject exactly the complement of 0<x<=1, Q2>0, "
+        "x>=grid minimum for the requested point with and without TMC (concrete orderings); Runner.get_result returns the output of "
+        "replace_nans_with_0, which zeroes every observable/point/order/member slot of a probe output. NOT decided: that surviving operator "
+        "entries are finite (a numerical statement about LeProHQ, quadrature and the N3LO grids).",
+        "Trusted: CPython ast; yadsa partial evaluator and its inert summaries of eko/numpy/scipy objects; generic-point folding "
+        "(a non-constant polynomial weight is non-zero); heavy coefficient functions folded above threshold; 0<xi<=x for the TMC point.",
+        "DESIGN.md section 3, C16",
+    ),
+    "C18": (
+        "interprocedural argument-vector demand vs. supply; closed-world call/whitelist check of njit bodies; small type inference",
+        "Decides the static clauses of C18: for every RSL part of every partonic channel/order (folded through the MRO), every splitting "
+        "kernel and the TMC kernels, demand on the float vector `args` <= values supplied for that part, with nf/L/variation role agreement; "
+        "every njit body calls only njit functions or whitelisted numpy/builtins and captures only numeric module constants; signature "
+        "arity, kernel-to-kernel call arity/types, no complex value returned from an f8 kernel; captured globals are never written from a "
+        "function. NOT decided: agreement of compiled and interpreted values to rounding (numerical).",
+        "Trusted: CPython ast; yadsa resolver; the whitelist of numba-supported numpy/builtin calls in rules/c18.py; decorator signature "
+        "strings are the only typing contract.",
+        "DESIGN.md section 3, C18",
+    ),
 }
 
 NA = {
